@@ -301,6 +301,16 @@ func cmdCheck(args []string) int {
 
 	os.WriteFile(filepath.Join(scratch, "claim"), []byte("0"), 0o644)
 	self, _ := os.Executable()
+	driver := self
+	if c.WorkerBin != "" {
+		alt := filepath.Join(filepath.Dir(self), c.WorkerBin+strings.TrimPrefix(filepath.Base(self), "ivgmc"))
+		if _, err := os.Stat(alt); err != nil {
+			fmt.Fprintf(RealStdout, "HARNESS-ERROR: worker binary %s missing (instrumented build failed; see .bin/build-inst.log)\n", alt)
+			return 2
+		}
+		self = alt
+	}
+	_ = driver
 	dl := time.Now().Add(horizon(*tier)).Unix()
 	type wres struct {
 		res    *Result
